@@ -1,19 +1,20 @@
-// Command c07 runs the graph codecs of /repo/graph/encoding.go on valid inputs (C07): every
-// graph is encoded with Graph6Encode, Sparse6Encode and MulticodeEncode from a dense or a sparse
-// representation, the strings are decoded again with and without the optional header, sequences
-// of Multicode records go through MulticodeDecodeMultiple, and Pruefer codes / labelled trees go
-// through PruferDecode / PruferEncode in both directions.
+// Command c07 runs Graph6Encode/Decode and Sparse6Encode/Decode of /repo/graph/encoding.go on
+// valid inputs (C07, graph6/sparse6 part): every graph is encoded from a dense or a sparse
+// representation, the strings are decoded again with and without the optional header and the
+// sparse6 string is also read by a transcription of the format text.  (Multicode and Pruefer
+// have their own command, c07p.)
 //
 // Case lines:
 //
-//	G <rep> <n>;v-u v-u ...          a graph, rep = d (DenseGraph) or s (SparseGraph)
-//	M <rep>;n:v-u,v-u n:v-u ...      a sequence of graphs for MulticodeDecodeMultiple
-//	P;c c c ...                      a Pruefer code (n = length + 2)
-//	T <rep> <n>;v-u v-u ...          a labelled tree
+//	G <rep> <n>;v-u v-u ...     a graph, rep = d (DenseGraph) or s (SparseGraph)
+//	H <n>;v-u v-u ...           a stub Graph with N() = n and these few edges: reaches the sizes
+//	                            n >= 2048 and the 8-byte header that no real graph value can
+//	                            (observation: the header bytes; the rest is checked by oracles)
 package main
 
 import (
 	"fmt"
+	"sort"
 	"strconv"
 	"strings"
 	"time"
@@ -140,26 +141,6 @@ func execGraph(rep byte, n int, es []edge) hx.Result {
 	} else {
 		sb.WriteString(";s6=panic;s6d=na;s6hd=na;s6spec=na")
 	}
-	// Multicode
-	if n <= 255 {
-		var b []byte
-		if codecobs.Call(func() { b = graph.MulticodeEncode(g) }) {
-			var dg *graph.DenseGraph
-			d := "panic"
-			if codecobs.Call(func() { dg = graph.MulticodeDecode(b) }) {
-				d = "ok:" + codecobs.Descr(dg)
-			}
-			fmt.Fprintf(&sb, ";mc=%s;mcd=%s", codecobs.Hex(b), d)
-			if d != want {
-				fail("C07:roundtrip:multicode", "MulticodeDecode(MulticodeEncode(g)) = %s, g = %s", d, want)
-			}
-			res.Buckets = append(res.Buckets, "multicode")
-		} else {
-			sb.WriteString(";mc=panic;mcd=na")
-		}
-	} else {
-		sb.WriteString(";mc=na;mcd=na")
-	}
 	if after := "ok:" + codecobs.Descr(g); after != want {
 		fail("C07:argument-modified", "the encoders changed their argument: %s, was %s", after, want)
 	}
@@ -178,138 +159,123 @@ func kBucket(k int) string {
 	return ">5"
 }
 
-type rec struct {
+// stubGraph is a Graph with n vertices and the edges es, built without allocating per vertex.
+type stubGraph struct {
 	n  int
-	es []edge
+	nb map[int][]int
+	m  int
 }
 
-func parseRecs(toks []string) []rec {
-	var rs []rec
-	for _, t := range toks {
-		if t == "" {
-			continue
-		}
-		p := strings.SplitN(t, ":", 2)
-		n, _ := strconv.Atoi(p[0])
-		var es []edge
-		if len(p) > 1 && p[1] != "" {
-			es = codecobs.ParseEdges(strings.Split(p[1], ","))
-		}
-		rs = append(rs, rec{n, cleanEdges(n, es)})
+func newStub(n int, es []edge) *stubGraph {
+	g := &stubGraph{n: n, nb: map[int][]int{}}
+	for _, e := range es {
+		g.nb[e.V] = append(g.nb[e.V], e.U)
+		g.nb[e.U] = append(g.nb[e.U], e.V)
+		g.m++
 	}
-	return rs
+	for v := range g.nb {
+		sort.Ints(g.nb[v])
+	}
+	return g
+}
+func (g *stubGraph) N() int { return g.n }
+func (g *stubGraph) M() int { return g.m }
+func (g *stubGraph) IsEdge(i, j int) bool {
+	for _, u := range g.nb[i] {
+		if u == j {
+			return true
+		}
+	}
+	return false
+}
+func (g *stubGraph) Neighbours(v int) []int { return g.nb[v] }
+func (g *stubGraph) Degrees() []int {
+	d := make([]int, g.n)
+	for v, l := range g.nb {
+		d[v] = len(l)
+	}
+	return d
 }
 
-func execMulti(rep byte, rs []rec) hx.Result {
-	var res hx.Result
-	var all []byte
-	var want []string
-	okEnc := true
-	for _, r := range rs {
-		g := codecobs.Build(rep, r.n, r.es)
-		var b []byte
-		if !codecobs.Call(func() { b = graph.MulticodeEncode(g) }) {
-			okEnc = false
-			break
-		}
-		all = append(all, b...)
-		want = append(want, codecobs.DescrOf(r.n, r.es))
-		if len(r.es) > 0 {
-			res.Nontrivial = true
-		}
-	}
-	if !okEnc {
-		res.Obs = "mc=panic;mm=na"
-		return res
-	}
-	var gs []*graph.DenseGraph
-	d := "panic"
-	if codecobs.Call(func() { gs = graph.MulticodeDecodeMultiple(all) }) {
-		ds := make([]string, len(gs))
-		for i, g := range gs {
-			ds[i] = codecobs.Descr(g)
-		}
-		d = "ok:" + strings.Join(ds, "|")
-	}
-	res.Obs = fmt.Sprintf("mc=%s;mm=%s", codecobs.Hex(all), d)
-	if w := "ok:" + strings.Join(want, "|"); d != w {
-		res.Viol = append(res.Viol, hx.Fail("C07:roundtrip:multicode-multiple", "MulticodeDecodeMultiple of the concatenated records = %s, the graphs are %s", d, w))
-	}
-	res.Buckets = []string{fmt.Sprintf("multicode-multiple/%d records", len(rs))}
-	return res
-}
+const maxStubGraph6 = 5000
 
-func isTree(g graph.Graph) bool {
-	n := g.N()
-	if n == 0 || g.M() != n-1 {
-		return false
-	}
-	seen := make([]bool, n)
-	stack := []int{0}
-	seen[0] = true
-	cnt := 1
-	for len(stack) > 0 {
-		v := stack[len(stack)-1]
-		stack = stack[:len(stack)-1]
+// above this size the string is only read by the format transcription (Sparse6Decode would
+// allocate n neighbour lists)
+const maxStubDecode = 4000000
+
+func edgesOf(g graph.Graph) []edge {
+	var es []edge
+	for v := 0; v < g.N(); v++ {
 		for _, u := range g.Neighbours(v) {
-			if !seen[u] {
-				seen[u] = true
-				cnt++
-				stack = append(stack, u)
+			if u < v {
+				es = append(es, edge{v, u})
 			}
 		}
 	}
-	return cnt == n
+	codecobs.SortEdges(es)
+	return es
 }
 
-func execCode(code []int) hx.Result {
-	var res hx.Result
-	res.Nontrivial = len(code) > 0
-	var g *graph.DenseGraph
-	if !codecobs.Call(func() { g = graph.PruferDecode(append([]int(nil), code...)) }) {
-		res.Obs = "pd=panic;pe=na"
-		return res
-	}
-	var back []int
-	pe := "panic"
-	if codecobs.Call(func() { back = graph.PruferEncode(g) }) {
-		pe = hx.Ints(back)
-	}
-	res.Obs = fmt.Sprintf("pd=ok:%s;pe=%s", codecobs.Descr(g), pe)
-	if pe != hx.Ints(code) {
-		res.Viol = append(res.Viol, hx.Fail("C07:prufer:encode-decode", "PruferEncode(PruferDecode(%v)) = %s", code, pe))
-	}
-	if !isTree(g) {
-		res.Viol = append(res.Viol, hx.Fail("C07:prufer:not-a-tree", "PruferDecode(%v) = %s is not a tree", code, codecobs.Descr(g)))
-	}
-	res.Buckets = []string{"prufer/code", fmt.Sprintf("n<=%d", bucket(len(code)+2))}
-	return res
-}
-
-func execTree(rep byte, n int, es []edge) hx.Result {
+func execStub(n int, es []edge) hx.Result {
 	var res hx.Result
 	es = cleanEdges(n, es)
-	res.Nontrivial = len(es) > 1
-	g := codecobs.Build(rep, n, es)
-	want := "ok:" + codecobs.DescrOf(n, es)
-	var code []int
-	if !codecobs.Call(func() { code = graph.PruferEncode(g) }) {
-		res.Obs = "pe=panic;pd=na"
-		return res
+	res.Nontrivial = true
+	fail := func(key, f string, a ...interface{}) { res.Viol = append(res.Viol, hx.Fail(key, f, a...)) }
+	g := newStub(n, es)
+	hl := hdrSize(n)
+	want := specText(n, es, true)
+	var sb strings.Builder
+	var s string
+	if n <= maxStubGraph6 {
+		if codecobs.Call(func() { s = graph.Graph6Encode(g) }) {
+			if len(s) >= hl {
+				fmt.Fprintf(&sb, "g6hdr=%s", codecobs.Hex([]byte(s[:hl])))
+			} else {
+				fmt.Fprintf(&sb, "g6hdr=short:%s", codecobs.Hex([]byte(s)))
+			}
+			if s != string(codecobs.SpecGraph6Encode(n, es, 0)) {
+				fail("C07:format:graph6", "Graph6Encode of a graph with n = %d and the edges %s is not the string of the format definition", n, codecobs.EdgeTokens(es))
+			}
+			var d *graph.DenseGraph
+			var err error
+			if !codecobs.Call(func() { d, err = graph.Graph6Decode(s) }) || err != nil || specText(d.N(), edgesOf(d), true) != want {
+				fail("C07:roundtrip:graph6", "Graph6Decode(Graph6Encode(g)) is not g for n = %d, edges %s", n, codecobs.EdgeTokens(es))
+			}
+		} else {
+			sb.WriteString("g6hdr=panic")
+		}
+		res.Buckets = append(res.Buckets, fmt.Sprintf("stub/graph6/hdr%d", hl))
+	} else {
+		sb.WriteString("g6hdr=na")
 	}
-	var t *graph.DenseGraph
-	pd := "panic"
-	if codecobs.Call(func() { t = graph.PruferDecode(append([]int(nil), code...)) }) {
-		pd = "ok:" + codecobs.Descr(t)
+	if codecobs.Call(func() { s = graph.Sparse6Encode(g) }) {
+		if len(s) >= hl+1 {
+			fmt.Fprintf(&sb, ";s6hdr=%s", codecobs.Hex([]byte(s[:hl+1])))
+		} else {
+			fmt.Fprintf(&sb, ";s6hdr=short:%s", codecobs.Hex([]byte(s)))
+		}
+		sn, ses, sok := codecobs.SpecSparse6([]byte(s))
+		if specText(sn, ses, sok) != want {
+			fail("C07:format:sparse6", "by the format text the string of Sparse6Encode(g) denotes %s, g is %s", specText(sn, ses, sok), want)
+		}
+		if n <= maxStubDecode {
+			var d *graph.SparseGraph
+			var err error
+			if !codecobs.Call(func() { d, err = graph.Sparse6Decode(s) }) || err != nil || specText(d.N(), edgesOf(d), true) != want {
+				fail("C07:roundtrip:sparse6", "Sparse6Decode(Sparse6Encode(g)) is not g for n = %d, edges %s", n, codecobs.EdgeTokens(es))
+			}
+		}
+		for _, c := range []byte(s[1:]) {
+			if c < 63 || c > 126 {
+				fail("C07:bytes:sparse6", "Sparse6Encode produced byte %d", c)
+				break
+			}
+		}
+	} else {
+		sb.WriteString(";s6hdr=panic")
 	}
-	res.Obs = fmt.Sprintf("pe=%s;pd=%s", hx.Ints(code), pd)
-	if isTree(g) && pd != want {
-		res.Viol = append(res.Viol, hx.Fail("C07:prufer:decode-encode", "PruferDecode(PruferEncode(t)) = %s, t = %s", pd, want))
-	}
-	if after := "ok:" + codecobs.Descr(g); after != want {
-		res.Viol = append(res.Viol, hx.Fail("C07:argument-modified", "PruferEncode changed its argument: %s, was %s", after, want))
-	}
-	res.Buckets = []string{"prufer/tree", fmt.Sprintf("rep=%c", rep), fmt.Sprintf("n<=%d", bucket(n))}
+	res.Buckets = append(res.Buckets, fmt.Sprintf("stub/sparse6/hdr%d", hl))
+	res.Obs = sb.String()
 	return res
 }
 
@@ -320,21 +286,13 @@ func exec(line string) hx.Result {
 	}
 	head := strings.Fields(line[:i])
 	toks := strings.Fields(line[i+1:])
-	switch head[0] {
-	case "G", "T":
+	switch {
+	case len(head) == 3 && head[0] == "G":
 		n, _ := strconv.Atoi(head[2])
-		if head[0] == "G" {
-			return execGraph(head[1][0], n, codecobs.ParseEdges(toks))
-		}
-		return execTree(head[1][0], n, codecobs.ParseEdges(toks))
-	case "M":
-		return execMulti(head[1][0], parseRecs(toks))
-	case "P":
-		code := make([]int, len(toks))
-		for j, t := range toks {
-			code[j], _ = strconv.Atoi(t)
-		}
-		return execCode(code)
+		return execGraph(head[1][0], n, codecobs.ParseEdges(toks))
+	case len(head) == 2 && head[0] == "H":
+		n, _ := strconv.Atoi(head[1])
+		return execStub(n, codecobs.ParseEdges(toks))
 	}
 	return hx.Result{Obs: "badcase"}
 }
@@ -350,29 +308,6 @@ func randGraph(r *hx.Rng, n int, num, den int) []edge {
 			}
 		}
 	}
-	return es
-}
-
-func randTree(r *hx.Rng, n int) []edge {
-	p := r.Perm(n)
-	var es []edge
-	for i := 1; i < n; i++ {
-		var j int
-		switch r.Intn(3) {
-		case 0:
-			j = i - 1 // long paths
-		case 1:
-			j = 0 // stars
-		default:
-			j = r.Intn(i)
-		}
-		a, b := p[i], p[j]
-		if a < b {
-			a, b = b, a
-		}
-		es = append(es, edge{a, b})
-	}
-	codecobs.SortEdges(es)
 	return es
 }
 
@@ -412,7 +347,7 @@ func gen(g *hx.Gen) {
 			both(n, es)
 		}
 	}
-	g.Exhaustive("all labelled graphs on n <= 5 vertices, dense and sparse representation, through graph6, sparse6 and Multicode")
+	g.Exhaustive("all labelled graphs on n <= 5 vertices, dense and sparse representation, through graph6 and sparse6")
 	dens := [][2]int{{0, 1}, {1, 20}, {3, 10}, {1, 2}, {1, 1}}
 	// random graphs n <= 40 at the five densities
 	for i := 0; i < g.Pick(600, 20000); i++ {
@@ -462,95 +397,49 @@ func gen(g *hx.Gen) {
 			graphCase("G", reps[r.Intn(2)], n, cleanEdges(n, es))
 		}
 	}
-	// Multicode: sequences of 1..5 records including n = 0, 1, 255
-	for i := 0; i < g.Pick(300, 6000); i++ {
-		cnt := r.Range(1, 5)
-		toks := make([]string, cnt)
-		for c := range toks {
-			var n int
-			switch r.Intn(8) {
-			case 0:
-				n = 0
-			case 1:
-				n = 1
-			case 2:
-				if r.Chance(1, 4) {
-					n = 255
-				} else {
-					n = 2
-				}
-			default:
-				n = r.Range(2, 9)
-			}
+	// stub graphs: the 4-byte header at sizes where every byte of it is used, the 8-byte header
+	// of sparse6, and the sizes around the boundaries; edgeless and with a few edges
+	sizes := []int{63, 64, 2047, 2048, 4095, 4096, 4097, 5000, 258047, 258048, 1000000, 16777215, 16777216}
+	if g.Thorough() {
+		sizes = append(sizes, 1<<30, 1<<30+1)
+	}
+	// n > 2^30: every byte of the 8-byte header is exercised (about 8 s: the encoder visits every vertex)
+	g.Emit(fmt.Sprintf("H %d;%d-%d %d-%d", 1<<30+77, 1<<30+76, 5, 1<<30+1, 1<<30))
+	for _, n := range sizes {
+		g.Emit(fmt.Sprintf("H %d;", n))
+		for c := 0; c < g.Pick(2, 8); c++ {
 			var es []edge
-			if n == 255 {
-				for e := 0; e < r.Range(0, 30); e++ {
-					v := r.Range(1, 254)
-					es = append(es, edge{v, r.Intn(v)})
-				}
+			for e := 0; e < r.Range(1, 6); e++ {
+				v := r.Range(1, n-1)
 				if r.Bool() {
-					es = append(es, edge{254, r.Intn(254)})
+					v = n - 1 - r.Intn(3)
 				}
-				es = cleanEdges(n, es)
-			} else {
-				d := dens[r.Intn(len(dens))]
-				es = randGraph(r, n, d[0], d[1])
+				es = append(es, edge{v, r.Intn(v)})
 			}
-			toks[c] = fmt.Sprintf("%d:%s", n, strings.ReplaceAll(codecobs.EdgeTokens(es), " ", ","))
-		}
-		g.Emit(fmt.Sprintf("M %c;%s", reps[r.Intn(2)], strings.Join(toks, " ")))
-	}
-	// Pruefer: every code for n <= 7 (n <= 8 in the thorough tier), random ones up to n = 60
-	maxN := g.Pick(7, 8)
-	for n := 2; n <= maxN; n++ {
-		code := make([]int, n-2)
-		for {
-			g.Emit("P;" + strings.ReplaceAll(hx.Ints(code), ",", " "))
-			i := n - 3
-			for ; i >= 0; i-- {
-				code[i]++
-				if code[i] < n {
-					break
-				}
-				code[i] = 0
-			}
-			if i < 0 {
-				break
-			}
+			es = cleanEdges(n, es)
+			g.Emit(fmt.Sprintf("H %d;%s", n, codecobs.EdgeTokens(es)))
 		}
 	}
-	g.Exhaustive(fmt.Sprintf("all Pruefer codes for 2 <= n <= %d (decode, then encode)", maxN))
-	for i := 0; i < g.Pick(400, 10000); i++ {
-		n := r.Range(3, 60)
-		code := make([]int, n-2)
-		for j := range code {
-			switch i % 3 {
-			case 0:
-				code[j] = r.Intn(n)
-			case 1:
-				code[j] = r.Intn(1 + n/4) // few inner vertices, many leaves
-			default:
-				code[j] = n - 1 - r.Intn(1+n/4)
-			}
-		}
-		g.Emit("P;" + strings.ReplaceAll(hx.Ints(code), ",", " "))
-	}
-	// labelled trees: encode, then decode
-	for i := 0; i < g.Pick(600, 15000); i++ {
-		n := r.Range(2, 60)
+	for i := 0; i < g.Pick(10, 60); i++ {
+		n := r.Range(63, 5000)
 		if i%3 == 0 {
-			n = r.Range(2, 9)
+			n = r.Range(258048, 2000000)
 		}
-		graphCase("T", reps[r.Intn(2)], n, randTree(r, n))
+		var es []edge
+		for e := 0; e < r.Range(0, 4); e++ {
+			v := r.Range(1, n-1)
+			es = append(es, edge{v, r.Intn(v)})
+		}
+		g.Emit(fmt.Sprintf("H %d;%s", n, codecobs.EdgeTokens(cleanEdges(n, es))))
 	}
 }
 
 func main() {
 	hx.Main(hx.Prop{
-		Rule:        "case = a graph (n, edge list) in dense or sparse representation / a sequence of graphs / a Pruefer code / a labelled tree; non-trivial = at least one edge (Pruefer: n >= 3); distinct by case text; buckets per codec, header size and sparse6 pair width",
+		Rule:        "case = a graph (n, edge list) in dense or sparse representation, or a stub Graph of a large size; non-trivial = at least one edge (stub: always, it exists for its header); distinct by case text; buckets per codec, header size and sparse6 pair width",
 		Gen:         gen,
 		Exec:        exec,
-		CaseTimeout: 20 * time.Second,
+		CaseTimeout: 90 * time.Second,
 		MemMB:       2048,
 	})
 }
